@@ -204,11 +204,12 @@ func (c *SyncMap) Dump(w io.Writer) (int, error) {
 func (c *SyncMap) Restore(r io.Reader) (int, error) {
 	var (
 		decoder = gob.NewDecoder(r)
-		e       TraitEntry
 		n       = 0
 	)
 
 	for {
+		var e TraitEntry
+
 		err := decoder.Decode(&e)
 		if err != nil {
 			if errors.Is(err, io.EOF) {
@@ -217,8 +218,6 @@ func (c *SyncMap) Restore(r io.Reader) (int, error) {
 
 			return n, err
 		}
-
-		e := e
 
 		c.data.Store(string(e.K), &e)
 
